@@ -10,7 +10,7 @@
                exactly one character (all the compiler emits); back-references included.
 
    Python facts built in (validated by the E1 correspondence of C17 against re.fullmatch):
-   '.' does not match "\n" (no DOTALL); a class [^...] matches every other character including
+   '.' matches "\n" only when compiled with re.DOTALL (flag carried by the RAny node); a class [^...] matches every other character including
    '/' and "\n"; a back-reference to a group that did not participate fails; fullmatch succeeds
    iff some backtracking path consumes the whole string, and reports the groups of the first such
    path in priority order. *)
@@ -22,7 +22,7 @@ Open Scope N_scope.
 Inductive re :=
 | REps
 | RStr (s : str)                 (* literal text, printed with re.escape *)
-| RAny                           (* .  *)
+| RAny (nl : bool)                (* .  ; nl = compiled with re.DOTALL: also matches "\n" *)
 | RCls (neg : bool) (body : str) (* [body] / [^body], body copied verbatim from the pattern *)
 | RCat (a b : re)
 | RAlt (a b : re)
@@ -49,7 +49,7 @@ Fixpoint pr (r : re) : str :=
   match r with
   | REps => []
   | RStr s => re_escape s
-  | RAny => [46]
+  | RAny _ => [46]
   | RCls neg body => [91] ++ (if neg then [94] else []) ++ body ++ [93]
   | RCat a b => pr a ++ pr b
   | RAlt a b => pr a ++ [124] ++ pr b
@@ -98,7 +98,7 @@ Definition env_set (n v : str) (e : env) : env := (n, v) :: e.
 Inductive mt : re -> env -> str -> env -> Prop :=
 | MEps e : mt REps e [] e
 | MStr l e : mt (RStr l) e l e
-| MAny c e : c <> 10 -> mt RAny e [c] e
+| MAny nl c e : nl = true \/ c <> 10 -> mt (RAny nl) e [c] e
 | MCls neg b c e : cls_accepts neg b c = true -> mt (RCls neg b) e [c] e
 | MCat a b e s1 e1 s2 e2 : mt a e s1 e1 -> mt b e1 s2 e2 -> mt (RCat a b) e (s1 ++ s2) e2
 | MAltL a b e s e' : mt a e s e' -> mt (RAlt a b) e s e'
@@ -143,7 +143,7 @@ Fixpoint ms (r : re) (e : env) (s : str) : res :=
   match r with
   | REps => [(e, s)]
   | RStr l => match strip_prefix l s with Some s' => [(e, s')] | None => [] end
-  | RAny => match s with c :: s' => if c =? 10 then [] else [(e, s')] | [] => [] end
+  | RAny nl => match s with c :: s' => if nl || negb (c =? 10) then [(e, s')] else [] | [] => [] end
   | RCls neg b => match s with c :: s' => if cls_accepts neg b c then [(e, s')] else [] | [] => [] end
   | RCat a b => flat_map (fun es => ms b (fst es) (snd es)) (ms a e s)
   | RAlt a b => ms a e s ++ ms b e s
@@ -172,11 +172,11 @@ Definition first_match (r : re) (s : str) : option env :=
 (* ---------- well-formedness used by the completeness direction ---------- *)
 
 Definition one_char (a : re) : bool :=
-  match a with RAny | RCls _ _ => true | _ => false end.
+  match a with RAny _ | RCls _ _ => true | _ => false end.
 
 Fixpoint wf_re (r : re) : bool :=
   match r with
-  | REps | RStr _ | RAny | RCls _ _ | RRef _ => true
+  | REps | RStr _ | RAny _ | RCls _ _ | RRef _ => true
   | RCat a b | RAlt a b => wf_re a && wf_re b
   | RStar a | RPlus a => one_char a
   | ROpt a | RNcg a | RGrp _ a => wf_re a
@@ -248,14 +248,15 @@ Qed.
 
 Lemma ms_sound r : forall e s e' s2, In (e', s2) (ms r e s) -> exists s1, s = s1 ++ s2 /\ mt r e s1 e'.
 Proof.
-  induction r as [| l | | neg b | a IHa b IHb | a IHa b IHb | a IHa | a IHa | a IHa | a IHa | n a IHa | n];
+  induction r as [| l | nl | neg b | a IHa b IHb | a IHa b IHb | a IHa | a IHa | a IHa | a IHa | n a IHa | n];
     intros e s e' s2 Hin; cbn [ms] in Hin.
   - destruct Hin as [Heq|[]]. inversion Heq; subst. exists []. split; [reflexivity|constructor].
   - destruct (strip_prefix l s) as [s'|] eqn:E; [|destruct Hin].
     destruct Hin as [Heq|[]]. inversion Heq; subst. apply strip_prefix_spec in E.
     exists l. split; [exact E|constructor].
-  - destruct s as [|c s']; [destruct Hin|]. destruct (N.eqb_spec c 10) as [->|Hne]; [destruct Hin|].
-    destruct Hin as [Heq|[]]. inversion Heq; subst. exists [c]. split; [reflexivity|constructor; exact Hne].
+  - destruct s as [|c s']; [destruct Hin|]. destruct (nl || negb (c =? 10)) eqn:E; [|destruct Hin].
+    destruct Hin as [Heq|[]]. inversion Heq; subst. exists [c]. split; [reflexivity|constructor].
+    apply orb_true_iff in E as [E|E]; [left; exact E|right]. intros ->. discriminate.
   - destruct s as [|c s']; [destruct Hin|]. destruct (cls_accepts neg b c) eqn:E; [|destruct Hin].
     destruct Hin as [Heq|[]]. inversion Heq; subst. exists [c]. split; [reflexivity|constructor; exact E].
   - apply in_flat_map in Hin as [[e1 sm] [Hy Hin]]. cbn [fst snd] in Hin.
@@ -288,11 +289,12 @@ Proof. apply strip_prefix_spec. reflexivity. Qed.
 Lemma ms_complete r : wf_re r = true ->
   forall e s1 s2 e', mt r e s1 e' -> In (e', s2) (ms r e (s1 ++ s2)).
 Proof.
-  induction r as [| l | | neg b | a IHa b IHb | a IHa b IHb | a IHa | a IHa | a IHa | a IHa | n a IHa | n];
+  induction r as [| l | nl | neg b | a IHa b IHb | a IHa b IHb | a IHa | a IHa | a IHa | a IHa | n a IHa | n];
     intros Hwf e s1 s2 e' H; cbn [wf_re] in Hwf; inversion H; subst; cbn [ms].
   - left. reflexivity.
   - rewrite strip_prefix_app. left. reflexivity.
-  - cbn. destruct (N.eqb_spec c 10); [congruence|]. left. reflexivity.
+  - cbn. match goal with Hc : _ \/ _ |- _ => destruct Hc as [->|Hc] end; [left; reflexivity|].
+    destruct (N.eqb_spec c 10); [congruence|]. rewrite orb_true_r. left. reflexivity.
   - cbn. match goal with Hc : cls_accepts _ _ _ = true |- _ => rewrite Hc end. left. reflexivity.
   - apply andb_true_iff in Hwf as [Hwa Hwb]. apply in_flat_map.
     exists (e1, s3 ++ s2). split; [rewrite <- app_assoc; apply IHa; assumption|].
